@@ -31,7 +31,10 @@ Definition sobs := (list cls * nat * nat * nat)%type.
 Definition stepobs := (nat * option qobs * option (list cpobs) * list sobs)%type.
 Definition case_t := (igraph * list (op * stepobs))%type.
 
-Definition mask_of (l : list nat) : nat := fold_left (fun a i => Nat.lor a (Nat.shiftl 1 i)) l 0.
+(* bit 0 = ``Interface`` itself, implied by every specification: always set *)
+Definition mask_of (l : list nat) : nat := fold_left (fun a i => Nat.lor a (Nat.shiftl 1 i)) l 1.
+(* plain: for the lists of directly provided interfaces *)
+Definition mask_list (l : list nat) : nat := fold_left (fun a i => Nat.lor a (Nat.shiftl 1 i)) l 0.
 Definition in_mask (m x : nat) : bool := Nat.testbit m x.
 Definition sub_mask (a b : nat) : bool := Nat.eqb (Nat.lor a b) b.
 Definition all_ifaces (g : igraph) : list iface := seq 0 (length g).
@@ -104,6 +107,9 @@ Definition l_live_ids (L : ledger) : list obj :=
 Definition within (lo hi : list iface) (m : nat) : bool :=
   forallb (in_mask m) lo && sub_mask m (mask_of hi).
 
+Definition within_list (lo hi : list iface) (m : nat) : bool :=
+  forallb (in_mask m) lo && sub_mask m (mask_list hi).
+
 Fixpoint nodupb (l : list nat) : bool :=
   match l with [] => true | x :: t => negb (mem_nat x t) && nodupb t end.
 
@@ -112,7 +118,7 @@ Definition spec_iobs (g : igraph) (L : ledger) (a : iobs) : bool :=
   let t := TInst o in
   within (lo_provided g L t) (hi_provided g L t) p
   && Nat.eqb ip p
-  && within (lo_dpb L t) (hi_dpb L t) (mask_of d) && nodupb d.
+  && within_list (lo_dpb L t) (hi_dpb L t) (mask_list d) && nodupb d.
 
 Definition spec_cobs (g : igraph) (L : ledger) (a : cobs) : bool :=
   let '(c, i, ii, p, ip, d) := a in
@@ -121,7 +127,7 @@ Definition spec_cobs (g : igraph) (L : ledger) (a : cobs) : bool :=
   && Nat.eqb ii i
   && within (lo_provided g L t) (hi_provided g L t) p
   && Nat.eqb ip p
-  && within (lo_dpb L t) (hi_dpb L t) (mask_of d) && nodupb d.
+  && within_list (lo_dpb L t) (hi_dpb L t) (mask_list d) && nodupb d.
 
 Definition spec_query (g : igraph) (L : ledger) (q : qobs) : bool :=
   forallb (fun a : iobs => let '(o, _, _, _) := a in mem_nat o (l_live_ids L)) (fst q)
@@ -132,7 +138,7 @@ Definition spec_cp (g : igraph) (L : ledger) (cp : list cpobs) : bool :=
   forallb (fun a : cpobs => let '(c, _, _, _) := a in Nat.ltb c (length (lcs L))) cp
   && forallb (fun a => let '(c, p, ip, d) := a in
                        within (lo_provided g L (TCls c)) (hi_provided g L (TCls c)) p && Nat.eqb ip p
-                       && within (lo_dpb L (TCls c)) (hi_dpb L (TCls c)) (mask_of d) && nodupb d) cp.
+                       && within_list (lo_dpb L (TCls c)) (hi_dpb L (TCls c)) (mask_list d) && nodupb d) cp.
 
 (* a super proxy reports what the rest of the MRO implements: the three forms agree and lie
    between the ledger's bounds for exactly those classes *)
@@ -155,8 +161,8 @@ Definition spec_exc (g : igraph) (L' : ledger) (o : op) (code : nat) : bool :=
       else match o with
            | NoLongerProvides t x =>
                match code with
-               | 0 => negb (mem_nat x (lo_provided g L' t))
-               | 1 => mem_nat x (hi_provided g L' t)
+               | 0 => negb (Nat.eqb x 0 || mem_nat x (lo_provided g L' t))
+               | 1 => Nat.eqb x 0 || mem_nat x (hi_provided g L' t)
                | _ => false
                end
            | _ => Nat.eqb code 0
